@@ -24,6 +24,22 @@ fn hostile_string(src: &mut Src) -> String {
 fn needs_quoting(s: &str) -> bool {
     s.is_empty() || s != s.trim() || !s.chars().all(|c| c.is_ascii_alphanumeric()) || ["null", "yes", "no", "true", "false", "1e3", "0x10", "0o7"].contains(&s) || s.chars().all(|c| c.is_ascii_digit())
 }
+/// The three spellings of "save" and of "open" the library offers (format method, SerdeFile trait,
+/// free function); which pair a case uses is derived from its content, so all nine get exercised.
+fn save_any<T: SerdeFile>(how: u64, data: &T, path: &str, fmt: SerializationFormat) -> Result<(), String> {
+    match how % 3 {
+        0 => fmt.save(data, path).map_err(|e| e.to_string()),
+        1 => SerdeFile::save(data, path, fmt).map_err(|e| e.to_string()),
+        _ => layout21utils::ser::save(data, path, fmt).map_err(|e| e.to_string()),
+    }
+}
+fn open_any<T: SerdeFile>(how: u64, path: &str, fmt: SerializationFormat) -> Result<T, String> {
+    match how % 3 {
+        0 => fmt.open::<T>(path).map_err(|e| e.to_string()),
+        1 => <T as SerdeFile>::open(path, fmt).map_err(|e| e.to_string()),
+        _ => layout21utils::ser::open::<T>(path, fmt).map_err(|e| e.to_string()),
+    }
+}
 fn fmt_of(i: u64) -> (SerializationFormat, &'static str) {
     if i % 2 == 0 {
         (SerializationFormat::Json, "json")
@@ -108,8 +124,9 @@ fn gds_case(src: &mut Src, ctx: &mut Ctx) -> Result<(), String> {
             1 => ".c18dotfile",
             _ => "c18.markup",
         });
-        SerdeFile::save(&lib, &path, fmt).map_err(|e| format!("save to {} failed: {}", fname, e))?;
-        let r = <gds21::GdsLibrary as SerdeFile>::open(&path, fmt);
+        let h = hash_of(&(&m, 7u8));
+        save_any(h, &lib, &path, fmt).map_err(|e| format!("save to {} failed: {}", fname, e))?;
+        let r = open_any::<gds21::GdsLibrary>(h / 3, &path, fmt);
         let txt = std::fs::read_to_string(&path).unwrap_or_default();
         let _ = std::fs::remove_file(&path);
         r.map_err(|e| format!("{} file written by save() does not load: {}\n{}", fname, e, clip(&txt)))?
@@ -193,8 +210,9 @@ fn lef_case(src: &mut Src, ctx: &mut Ctx) -> Result<(), String> {
     });
     let back: lef21::LefLibrary = if via_file {
         let path = scratch_path(&format!("c18lef.{}", fname));
-        SerdeFile::save(&lib, &path, fmt).map_err(|e| format!("save to {} failed: {}", fname, e))?;
-        let r = <lef21::LefLibrary as SerdeFile>::open(&path, fmt);
+        let h = hash_of(&format!("{:?}", lib));
+        save_any(h, &lib, &path, fmt).map_err(|e| format!("save to {} failed: {}", fname, e))?;
+        let r = open_any::<lef21::LefLibrary>(h / 3, &path, fmt);
         let txt = std::fs::read_to_string(&path).unwrap_or_default();
         let _ = std::fs::remove_file(&path);
         r.map_err(|e| format!("{} file written by save() does not load: {}\n{}", fname, e, clip(&txt)))?
